@@ -293,15 +293,22 @@ def stepLine (st : DState) (line : String) : DState × String :=
     ({ st with srv := s' }, out)
   | _ => (st, "bad-op")
 
-partial def loop (hin : IO.FS.Stream) (hout : IO.FS.Stream) (st : DState) : IO Unit := do
+/-- `swap`: the harness drives TWO independent sets of objects (connections, servers, header sets, routers) that are
+    alive in its process at the same time; the op exchanges the working state with the stashed one. Objects of the
+    implementation that share nothing must behave like two models that share nothing. -/
+partial def loop (hin : IO.FS.Stream) (hout : IO.FS.Stream) (st alt : DState) : IO Unit := do
   let line ← hin.getLine
   if line.isEmpty then return ()
-  let (st', out) := stepLine st line
-  hout.putStrLn out
-  loop hin hout st'
+  if line.trimAscii.toString == "swap" then
+    hout.putStrLn "ok"
+    loop hin hout alt st
+  else
+    let (st', out) := stepLine st line
+    hout.putStrLn out
+    loop hin hout st' alt
 
 def main : IO Unit := do
   let hin ← IO.getStdin
   let hout ← IO.getStdout
-  loop hin hout {}
+  loop hin hout {} {}
   hout.flush
